@@ -35,8 +35,9 @@ def _sites(k):
 
 def trunc_cases(tier, seed):
     cases = []
+    # ... and long files, where a missing or extra frame is a relative difference of a few millionths
     plan = [(2, range(1, 31 if tier == "quick" else 61)), (5, range(1, 31 if tier == "quick" else 61)),
-            (385, (1, 2, 7) if tier == "quick" else (1, 2, 3, 7, 8, 31))]
+            (385, (1, 2, 7) if tier == "quick" else (1, 2, 3, 7, 8, 31)), (2, (100003, 400001) if tier == "quick" else (100003, 400001, 1200007))]
     inprog = _in_progress_anchored()
     for nc, frames in plan:
         frame = nc * 2
